@@ -549,21 +549,43 @@ def _subst(x, mp, names):
     if isinstance(x, Poly):
         if not (x.syms & names):
             return x
-        out = ZERO
+        ck = (x.key, tuple(sorted((n_, mp[n_].key) for n_ in (x.syms & names))))
+        r = _subst_cache.get(ck)
+        if r is not None:
+            return r
+        acc = {}
         for m, c in x.terms:
-            t = Poly.const(c)
+            keep = []
+            t = None
             for a, p in m:
                 if a.syms & names:
-                    t = t * (_subst_atom(a, mp, names) ** p)
+                    f = _subst_atom(a, mp, names)
+                    f = f ** p if p != 1 else f
+                    t = f if t is None else t * f
                 else:
-                    t = t * Poly.atom(a, p)
-            out = out + t
+                    keep.append((a, p))
+            km = tuple(keep)
+            if t is None:
+                acc[km] = acc.get(km, 0) + c
+            else:
+                for m2, c2 in t.terms:
+                    mm = mono_mul(km, m2)
+                    acc[mm] = acc.get(mm, 0) + c * c2
+        out = Poly(acc)
+        if len(_subst_cache) > 200000:
+            _subst_cache.clear()
+        _subst_cache[ck] = out
         return out
     if isinstance(x, Cond):
         if not (x.syms & names):
             return x
         return rebuild_cond(x, lambda q: _subst(q, mp, names))
     return x
+
+
+_subst_cache = {}
+_open_cache = {}
+_close_cache = {}
 
 
 def rebuild_cond(c, f):
@@ -629,16 +651,25 @@ def _bvsubst(x, h, repl):
     if isinstance(x, Poly):
         if not x.hasbv:
             return x
-        out = ZERO
+        acc = {}
         for m, c in x.terms:
-            t = Poly.const(c)
+            keep = []
+            t = None
             for a, p in m:
                 if a.hasbv:
-                    t = t * (_bvsubst_atom(a, h, repl) ** p)
+                    f = _bvsubst_atom(a, h, repl)
+                    f = f ** p if p != 1 else f
+                    t = f if t is None else t * f
                 else:
-                    t = t * Poly.atom(a, p)
-            out = out + t
-        return out
+                    keep.append((a, p))
+            km = tuple(keep)
+            if t is None:
+                acc[km] = acc.get(km, 0) + c
+            else:
+                for m2, c2 in t.terms:
+                    mm = mono_mul(km, m2)
+                    acc[mm] = acc.get(mm, 0) + c * c2
+        return Poly(acc)
     if isinstance(x, Cond):
         if not x.hasbv:
             return x
@@ -665,21 +696,36 @@ def _bvsubst_atom(a, h, repl):
 def open_binder(a):
     """returns (fresh symbol Poly, bound, body) with the bound variable opened"""
     assert a.kind in BINDERS
+    r = _open_cache.get(a)
+    if r is not None:
+        return r
     bound, body = (a.args[0], a.args[1]) if a.kind != "lam" else (None, a.args[0])
     h = a.height - 1
     v = fresh("b")
     nbody = _bvsubst(body, h, v)
+    if len(_open_cache) > 100000:
+        _open_cache.clear()
+    _open_cache[a] = (v, bound, nbody)
     return v, bound, nbody
 
 
 def close_raw(kind, v, bound, body, sort="real"):
     """build the binder atom (no simplification); v is a symbol Poly."""
     name = symname(v)
+    ck = (kind, name, bound.key if bound is not None else None, body.key, sort)
+    r = _close_cache.get(ck)
+    if r is not None:
+        return r
     h = max(body.height, bound.height if bound is not None else 0)
     cbody = subst(body, {name: bv(h)})
     if kind == "lam":
-        return Poly.atom(Atom("lam", (cbody,), sort))
-    return Poly.atom(Atom(kind, (bound, cbody), sort))
+        r = Poly.atom(Atom("lam", (cbody,), sort))
+    else:
+        r = Poly.atom(Atom(kind, (bound, cbody), sort))
+    if len(_close_cache) > 200000:
+        _close_cache.clear()
+    _close_cache[ck] = r
+    return r
 
 
 def close_binder(kind, v, bound, body, sort="real"):
@@ -1032,11 +1078,23 @@ def mk_abs(p):
     return Poly.atom(Atom("abs", (q,)))
 
 
+def _single_atom(p, kind):
+    if len(p.terms) == 1:
+        m, c = p.terms[0]
+        if c == 1 and len(m) == 1 and m[0][1] == 1 and m[0][0].kind == kind:
+            return m[0][0]
+    return None
+
+
 def mk_max(a, b):
     a, b = P(a), P(b)
     d = a - b
     if d.is_const():
         return a if d.const_value() >= 0 else b
+    for x, y in ((a, b), (b, a)):
+        at = _single_atom(x, "max")      # max(y, max(y, z)) = max(y, z)
+        if at is not None and (at.args[0] == y or at.args[1] == y):
+            return x
     if a.key > b.key:
         a, b = b, a
     return Poly.atom(Atom("max", (a, b)))
@@ -1052,12 +1110,75 @@ def mk_min(a, b):
     return Poly.atom(Atom("min", (a, b)))
 
 
+def simplify_under(x, cond, truth, depth=0):
+    """rewrite term x assuming cond has the given truth value: nested ite/max/min
+    atoms decided by cond collapse (used when building ite branches)"""
+    if not isinstance(x, Poly) or depth > 6:
+        return x
+    changed = False
+    out = ZERO
+    for m, c in x.terms:
+        t = Poly.const(c)
+        for a, p in m:
+            r = _simp_atom(a, cond, truth, depth)
+            if r is not None:
+                changed = True
+                t = t * (r ** p)
+            else:
+                t = t * Poly.atom(a, p)
+        out = out + t
+    return out if changed else x
+
+
+def _decides(cond, truth, d):
+    """sign information about poly d from (cond == truth): returns '+', '0+', '-', '0-' or None"""
+    if cond.kind != "cmp":
+        return None
+    op, p = cond.args
+    if op not in (">0", ">=0"):
+        return None
+    for sgn, q in ((1, d), (-1, -d)):
+        if q == p:
+            if truth:
+                s = "+" if op == ">0" else "0+"
+            else:
+                s = "0-" if op == ">0" else "-"
+            if sgn == -1:
+                s = {"+": "-", "0+": "0-", "-": "+", "0-": "0+"}[s]
+            return s
+    return None
+
+
+def _simp_atom(a, cond, truth, depth):
+    k = a.kind
+    if k == "ite":
+        c2 = a.args[0]
+        if c2 == cond:
+            return simplify_under(a.args[1] if truth else a.args[2], cond, truth, depth + 1)
+        if c_not(c2) == cond:
+            return simplify_under(a.args[2] if truth else a.args[1], cond, truth, depth + 1)
+    if k in ("max", "min"):
+        s = _decides(cond, truth, a.args[0] - a.args[1])
+        if s is not None:
+            first_ge = s in ("+", "0+")
+            pick = a.args[0] if (first_ge == (k == "max")) else a.args[1]
+            return simplify_under(pick, cond, truth, depth + 1)
+    if k in ("rcp", "exp", "log", "sqrt", "abs", "max", "min", "ite") and any(
+            isinstance(x, Poly) for x in a.args):
+        new = rebuild_atom(a, lambda q: simplify_under(q, cond, truth, depth + 1) if isinstance(q, Poly) else q)
+        if not (len(new.terms) == 1 and new.terms[0][0] == ((a, 1),) and new.terms[0][1] == 1):
+            return new
+    return None
+
+
 def mk_ite(c, a, b):
     c = C(c)
     a, b = P(a), P(b)
     k = c.const()
     if k is not None:
         return a if k else b
+    a = simplify_under(a, c, True)
+    b = simplify_under(b, c, False)
     if a == b:
         return a
     # ite(x<y, y, x) = max(x,y) ; ite(x<y, x, y) = min(x,y)  (also <=)
